@@ -5,13 +5,35 @@ P = 'biogeme.partition.'
 field_type('Partition', 'segments', 'list[set[int]]')
 field_type('Partition', 'full_set', 'set[int]')
 
+_REPLAY = """
+from biogeme.partition import Partition
+cands = [([{1, 2}, {3}], None, True), ([{1, 2}, {2, 3}], None, False), ([{1, 2}, {3}], {1, 2, 3}, True),
+         ([{1, 2}, {3}], {1, 2, 3, 4}, False), ([{1, 2}, {3, 4}], {1, 2, 3}, False), ([{1}, set()], None, False),
+         ([{1, 2, 3}], {1, 2, 3}, True), ([{5}, {7}, {5}], None, False)]
+violated = False
+for segs, full, valid in cands:
+    try:
+        p = Partition([set(s) for s in segs], full_set=None if full is None else set(full))
+        ok = True
+    except ValueError:
+        ok = False
+    if ok != valid:
+        violated, detail = True, f'Partition({segs}, full_set={full}): accepted={ok}, is a partition={valid}'
+        break
+    if ok:
+        u = set().union(*p.segments)
+        if u != p.full_set or sum(len(s) for s in p.segments) != len(u):
+            violated, detail = True, f'Partition({segs}, full_set={full}) accepted but segments/full_set = {p.segments}/{p.full_set}'
+            break
+"""
+
 _OVERLAP = ('exists(lambda a: exists(lambda b: a != b and exists(lambda x: x in self.segments[a] and x in self.segments[b]), '
             '0, len(self.segments)), 0, len(self.segments))')
 _COVER = ('forall(lambda x: iff(x in self.full_set, exists(lambda a: x in self.segments[a], 0, len(self.segments))))')
 
 contract(P + 'Partition.validate_partition', 'C19',
          raises={'ValueError': f'{_OVERLAP} or not {_COVER}'},
-         modifies=[],
+         modifies=[], replay=_REPLAY,
          invariants={
              1: {'clauses': {'disjoint_so_far': 'forall(lambda a: forall(lambda b: implies(a != b, '
                                                 'not exists(lambda x: x in self.segments[a] and x in self.segments[b])), '
@@ -22,12 +44,12 @@ contract(P + 'Partition.validate_partition', 'C19',
 
 contract(P + 'Partition.validate_segments', 'C19',
          raises={'ValueError': 'exists(lambda a: not self.segments[a], 0, len(self.segments))'},
-         modifies=[],
+         modifies=[], replay=_REPLAY,
          invariants={1: {'clauses': {'nonempty_so_far': 'forall(lambda a: bool(self.segments[a]), 0, _k)'}}})
 
 contract(P + 'Partition.__init__', 'C19',
          types={'segments': 'list[set[int]]', 'full_set': 'set[int] | None'},
-         may_raise=['ValueError'],
+         may_raise=['ValueError'], replay=_REPLAY,
          modifies=['self.segments', 'self.full_set'],
          ensures={
              'segments_kept': 'self.segments is segments',
